@@ -717,6 +717,22 @@ def run(ctx, scope=None):
     anchors(ctx, F.lib, spec)
     total = run_crate(ctx, F.lib, scope, spec)
     ctx.floor("KIND", "kinded sinks", total, 100 if scope is None else 1)
+    # every writer and reader of the connection matrix must use the same layout: a formula
+    # `right * num_left + left` is a valid row-major index on its own, but not next to
+    # `left * num_right + right`
+    rm = {}
+    for o in ctx.obs:
+        if o.rule == "KIND-ROWMAJOR" and o.ok and "|rowmajor|" in o.key:
+            fnp, triple = o.key.split("|")[1], o.key.rsplit("|", 1)[-1]
+            rm.setdefault(triple, set()).add(fnp.split("::")[-1])
+    if len(rm) >= 1 and not any(o.key == "KIND-ROWMAJOR|matrix-layout-agrees" for o in ctx.obs):
+        major = max(rm.items(), key=lambda kv: len(kv[1]))[0]
+        ok = len(rm) == 1
+        ctx.ob("KIND-ROWMAJOR", "matrix-layout-agrees", ok, "vibrato/src/dictionary/connector",
+               "all %d index formulas of the connection matrix use the layout %s" % (
+                   sum(len(v) for v in rm.values()), major) if ok else
+               "the connection matrix is indexed with different layouts: %s - cells written by one "
+               "function are read back as other id pairs by another" % {k: sorted(v) for k, v in rm.items()})
     ctx.assume("KIND trusts the declaration table spec/kinds.json (confirmed by reading; anchors "
                "are re-verified on every run); only contradictions between declared kinds are "
                "reported, unlabelled values never produce a verdict")
